@@ -21,25 +21,34 @@ func nonWS(s string) string {
 }
 
 var c13Words = []string{"the", "quick", "brown", "fox", "jumps", "over", "a", "lazy", "dog", "Dr.", "e.g.", "naïve", "café", "Zürich", "data", "analysis", "results", "3.14", "x"}
-var c13CJK = []string{"あ", "い", "漢", "字", "語", "。", "、", "한", "글", "中", "文"}
+var c13CJK = []string{"あ", "い", "漢", "字", "語", "。", "、", "한", "글", "中", "文", "全", "公", "共", "入", "報", "à", "…", "堂"}
 var c13Emoji = []string{"😀", "👩‍👩‍👧", "🇩🇪", "é", "ạ̈", "👍🏽"}
 
 func c13Text(rng *RNG, kind int, n int) string {
 	var b strings.Builder
 	switch kind {
 	case 0: // ASCII prose
+		capNext := true
 		for b.Len() < n {
 			w := c13Words[rng.Intn(len(c13Words))]
+			if capNext && w[0] >= 'a' && w[0] <= 'z' {
+				w = strings.ToUpper(w[:1]) + w[1:]
+			}
+			capNext = false
 			b.WriteString(w)
 			switch rng.Intn(12) {
 			case 0:
 				b.WriteString(". ")
+				capNext = rng.Chance(4, 5)
 			case 1:
 				b.WriteString("! ")
+				capNext = true
 			case 2:
 				b.WriteString("?\n")
+				capNext = true
 			case 3:
 				b.WriteString("\n\n")
+				capNext = true
 			case 4:
 				b.WriteString(",  ")
 			default:
@@ -288,6 +297,37 @@ func init() {
 			r.Check(strings.HasSuffix(nonWS(text), nonWS(o)), "overlap-suffix:"+sname, "overlap is not a suffix of the chunk's own content", cv)
 			r.Check(len(o) <= cfg.MaxOverlap, "overlap-max:"+sname, fmt.Sprintf("overlap of %d bytes exceeds MaxOverlap %d", len(o), cfg.MaxOverlap), cv)
 			r.Check(len(o) >= cfg.MinOverlap, "overlap-min:"+sname, fmt.Sprintf("non-empty overlap of %d bytes is below MinOverlap %d", len(o), cfg.MinOverlap), cv)
+		}
+		// truncation exactly at the MaxOverlap boundary: sentences of known lengths, MaxOverlap around
+		// the length of the last k sentences joined by single blanks
+		for i := 0; i < no/3; i++ {
+			ns := rng.Range(3, 7)
+			var sents []string
+			for j := 0; j < ns; j++ {
+				sents = append(sents, string(rune('A'+j))+strings.Repeat(string(rune('a'+j)), rng.Range(3, 30))+".")
+			}
+			text := strings.Join(sents, " ")
+			k := rng.Range(1, ns-1)
+			sum := k - 1
+			for _, t := range sents[ns-k:] {
+				sum += len(t)
+			}
+			for d := -3; d <= 2; d++ {
+				for _, st := range []rag.OverlapStrategy{rag.OverlapSentence, rag.OverlapParagraph} {
+					cfg := rag.OverlapConfig{Strategy: st, Size: ns, MinOverlap: 0, MaxOverlap: sum + d, PreserveWords: true}
+					if st == rag.OverlapParagraph {
+						cfg.Size = 1
+					}
+					if cfg.MaxOverlap < 1 {
+						continue
+					}
+					o := rag.NewOverlapGeneratorWithConfig(cfg).GenerateOverlap(text).Text
+					cv := L(I(2), I(int(st)), I(cfg.Size), I(0), I(cfg.MaxOverlap), Bool(true), Bs(text))
+					r.Check(len(o) <= cfg.MaxOverlap, "overlap-max:"+st.String(), fmt.Sprintf("overlap of %d bytes exceeds MaxOverlap %d", len(o), cfg.MaxOverlap), cv)
+					r.Check(strings.HasSuffix(nonWS(text), nonWS(o)), "overlap-suffix:"+st.String(), "overlap is not a suffix of the chunk's own content", cv)
+					r.Check(utf8.ValidString(o), "overlap-utf8:"+st.String(), "overlap is not valid UTF-8", cv)
+				}
+			}
 		}
 		// overlap across a chunk sequence: the overlap given to chunk i+1 comes from chunk i's own text
 		for i := 0; i < no/10; i++ {
